@@ -42,6 +42,12 @@ def o71(ctx):
         if len(loops) != 2:
             raise Unsupported("group loop / score-ordered loop not recognised", fn)
         grp, inner = loops
+        # the sweep visits every ranked particle of the group: a `break` (or a return) inside it ends the sweep under a condition -- that "everything that
+        # is left has been removed already" is a quantitative argument about the loop's progress this rule does not make
+        cut = [x_ for x_ in ast.walk(inner.node) if isinstance(x_, (ast.Break, ast.Return))] if isinstance(getattr(inner, "node", None), (ast.For, ast.While)) else []
+        ctx.count(1, {"keep_greater": kg, "ways out of the sweep": len(cut)})
+        if cut:
+            raise Unsupported(f"clean_by_distance: the score-ordered sweep is left early (`{norm_text(cut[0])[:40]}`): whether every particle it skips has been removed is not decided", cut[0])
         f_el = to_term(grp.extra["elem"])
         gmask = mk("eq", call("col", const("df"), sym("feature_id")), f_el)
         # (a) order of visiting
